@@ -5,6 +5,7 @@ args={...}, returns="..."); its body is a list of clauses
 
     requires(expr)            precondition
     ensures(expr)             postcondition (may mention `result` and old(name))
+    checked_natively(expr)    postcondition checked by the bounded native run only (not discharged, not assumed by callers)
     raises(Exc, when=expr)    the function raises Exc exactly when `when` (over the entry state)
     modifies("a", "b")        parameters the function may mutate (frame)
     loop(k, inv=lambda it: expr, decreases=lambda: expr)      k-th loop of the function
@@ -160,6 +161,11 @@ class Registry:
                     continue
                 if name == "ensures":
                     c.ensures.append(call.args[0])
+                    continue
+                if name == "checked_natively":
+                    # a postcondition that is NOT discharged deductively: evaluated by the bounded native run-time
+                    # check only, never assumed at call sites, never counted among the obligations
+                    c.native_ensures = getattr(c, "native_ensures", []) + [call.args[0]]
                     continue
                 if name == "raises":
                     exc = call.args[0].id
